@@ -315,7 +315,17 @@ VIS void *sched_generic_point(void *ra, int idx)
     if (mode == MODE_OFF || in_point || in_child) return r;
     if (!(lib_lo && (uintptr_t) ra >= lib_lo && (uintptr_t) ra < lib_hi)) return r;
     in_point = 1;
-    if (mode == MODE_COOP) { if (my_index >= 0) coop_point('c'); }
+    if (mode == MODE_COOP) {
+        if (my_index >= 0) {
+            /* the trace tells descriptor-creating ('O') and descriptor-closing ('C') calls from the rest ('c'), so that the explorer
+             * can aim preemptions at the windows in which a thread owns a descriptor */
+            const char *n = tramp_names[idx];
+            char kind = 'c';
+            if (!strcmp(n, "close") || !strcmp(n, "fclose")) kind = 'C';
+            else if (!strncmp(n, "open", 4) || !strncmp(n, "fopen", 5) || !strcmp(n, "socket") || !strcmp(n, "creat") || !strcmp(n, "fdopen")) kind = 'O';
+            coop_point(kind);
+        }
+    }
     else if (mode == MODE_PARK && generic_park) park_event();
     in_point = 0;
     return r;
